@@ -3,15 +3,24 @@ import collections, os, re, time
 from vlib import core, cases, libs
 
 LEVEL = "proof"
-PROPS = ["MV/Props/C09.lean"]
+PROPS = ["MV/Props/C09.lean", "MV/Props/C09b.lean"]
 ASSUMPTIONS = [
     "theorems (MV/Props/C09.lean) are about MV/Model/Ingest.lean: the validation ladder and loops of Manifold::Impl::Impl(const MeshGLP&) (src/impl.h) from entry to the call of "
     "CreateHalfedges, MeshGLP::NumVert/NumTri, the index discipline of MeshGL::Merge() (src/sort.cpp), the channel / LevelSet argument guards and the status algebra of deriving "
     "operations; in the model EVERY array access and division of that code is a checked primitive and ingest_total_safe / merge_total_safe say that for ALL inputs none fails",
     "the model mirrors the tree WITH the C09 repairs (Guards.fixed); Guards.pinned is the tree before them, for which MV/Props/C09.lean proves concrete counter-examples (pinned_*)",
     "tie: the same MeshShape is given to the Lean model and to the real constructor / Merge() under ASan+UBSan (no recovery) and the Status codes are compared on every case; the "
-    "CreateHalfedges + IsManifold step of the prediction reuses the C01 model (MV/Model/Halfedge.lean), whose freedom from out-of-range accesses is proved for balanced input only",
-    "NOT under a theorem, explored by the sanitizer run only: CreateHalfedges on unbalanced triangle soups, everything after IsManifold() in the constructor, the bodies of the deriving "
+    "CreateHalfedges + IsManifold step of the prediction reuses the C01 model (MV/Model/Halfedge.lean)",
+    "C09b (MV/Props/C09b.lean): for EVERY triangle list with an even number of triangles (what ingest_ok_inv guarantees, and more than is needed: neither the index bound nor "
+    "non-degeneracy is used) the checked transliteration of CreateHalfedges (sorted-key path, serial loop) and of CheckHalfedges/IsManifold (MV/Model/HalfedgeGate.lean) returns without "
+    "a fault and within the fuel of its loops, ids stays a permutation (every halfedge_ slot written once), IsManifold() == true <=> PairInv, and a passing structure keeps the input's "
+    "directed edges on its kept halfedges (gate_sound); completeness is proved for closed 2-manifolds only (gate_complete_partial); the composition ingest -> gate is "
+    "ingest_then_halfedges_safe.  NOT modelled: the bucketed path (vertCount >= 2^18) and the MANIFOLD_PAR ranges of the removal loop; IsManifold() has no duplicate-edge test "
+    "(that is Is2Manifold(), not called by the constructor), so NoError does not give NoDupEdge at the gate: CleanupTopology() is what removes duplicate edges afterwards",
+    "C09b tie: harness/c09b_soup.cpp runs the REAL Impl::CreateHalfedges + Impl::IsManifold under ASan+UBSan on 12 families of ladder-accepted non-manifold soups and compares the three "
+    "arrays and the verdict with the model exactly; the real constructor on the same soup must report NoError iff that verdict is true (NotManifold otherwise) and every NoError export "
+    "goes through the verified mesh checker",
+    "NOT under a theorem, explored by the sanitizer run only: everything after IsManifold() in the constructor, the bodies of the deriving "
     "operations behind their argument guards, the OBJ parser, polygon / point-set constructors; sizes >= 2^29 (32-bit overflow of counts) are outside model and run",
     "status_sticky is about the status algebra (operand order, PropagateStatus at the top of each deriving method); that each C++ method implements its algebra line is checked by running "
     "generated programs over errored leaves, not proved",
@@ -58,6 +67,44 @@ def run_section(ctx, exe, section, budget):
     return cs, stats, meshes
 
 
+def build_soup_harness():
+    flags = [f for f in libs.cxx_flags("san") if f not in ("-O1", "-O2")] + ["-O0", "-Wno-deprecated-declarations"]
+    return core.compile_harness("c09b_soup", [os.path.join(core.ROOT, "harness", "c09b_soup.cpp")], flags, libs=libs.link_flags("san"))
+
+
+def soup_family(ctx, exe):
+    """C09b: CreateHalfedges + IsManifold + the constructor on ladder-accepted, mostly non-manifold soups."""
+    n = 2400 if ctx.tier == "quick" else 48000
+    env = {"VERIF_SEED": str(ctx.seed), "VERIF_TIER": ctx.tier, "UBSAN_OPTIONS": "print_stacktrace=1", "ASAN_OPTIONS": "detect_leaks=0"}
+    try:
+        p = core.sh([exe, str(n)], env=env, timeout=2400)
+    except Exception as e:
+        rp = core.write_replay(ctx.pid, "soup-timeout", {"cmd": [exe, str(n)], "env": env, "error": str(e)[-2000:]})
+        raise core.Violation("harness c09b_soup did not finish: a loop of CreateHalfedges / the constructor does not terminate on a ladder-accepted soup", rp)
+    cs, stats = core.parse_cases(p.stdout)
+    if p.returncode != 0:
+        if cs and not cs[-1]["exp"] and cs[-1]["req"]:
+            cs.pop()
+        lines = p.stdout.split("\n")
+        last = [l for l in lines if l.startswith("REQ mesh soup")]
+        frames = [l.strip() for l in p.stderr.split("\n") if re.search(r"ERROR|runtime error|#\d+ .*/src/|what\(\)", l)][:12]
+        rp = core.write_replay(ctx.pid, "soup-crash", {"what": "sanitizer abort / crash of the real code on a triangle soup the validation ladder accepts",
+                                                       "last_soup_before_the_crash (nV nT indices)": last[-1][14:] if last else None, "the crashing soup is the next one of": "VERIF_SEED=%d %s %d" % (ctx.seed, exe, n),
+                                                       "rc": p.returncode, "report": frames, "stderr_tail": p.stderr[-3000:]})
+        raise core.Violation("c09b_soup: the real CreateHalfedges / IsManifold / constructor crashed under ASan+UBSan (rc=%d) on a ladder-accepted soup: %s" % (p.returncode, "; ".join(frames[:2])), rp)
+
+    def search(ctx, c):
+        # model != implementation on the arrays / verdict: is there a soup on which the real gate lets a broken structure through?
+        bad = [x for x in cs if not x["prop"].startswith("ok")]
+        if bad:
+            return {"what": bad[0]["prop"], "case": bad[0]["tag"], "soup": bad[0]["req"], "seed": ctx.seed}
+        return None
+    cov = cases.correspond(ctx, cs, "Impl::CreateHalfedges + Impl::IsManifold on ladder-accepted soups vs MV.Halfedge.createHalfedges/isManifold (arrays + verdict); constructor Status; NoError exports through the verified checker",
+                           search=search)
+    cov["stats"] = stats
+    return cov
+
+
 def normalize(a, c):
     req = c["req"]
     if req.startswith("ingest ctor"):
@@ -93,7 +140,7 @@ def search_without_model(ctx):
 def run(ctx):
     t0 = time.time()
     try:
-        cov = core.proof_gate(ctx.pid, PROPS, ["MV.Props.C09"] if ctx.tier == "thorough" else None)
+        cov = core.proof_gate(ctx.pid, PROPS, ["MV.Props.C09", "MV.Props.C09b"] if ctx.tier == "thorough" else None)
     except core.Violation as v:
         found = search_without_model(ctx)
         if found:
@@ -103,7 +150,12 @@ def run(ctx):
     cov["checker_cmd"] = "cd lean && lake build MV mvdriver && lake env lean <#print axioms for every theorem of MV/Props/C09.lean>; build/h/c09_ingest <section> <n> under ASan+UBSan | mvdriver (engine ingest)"
     cov["trusted_base"] = core.TRUSTED_BASE + ["AddressSanitizer / UndefinedBehaviorSanitizer of g++ 12 (what they do not instrument - e.g. reads inside a std::vector's spare capacity, "
                                                "float-to-int conversions - is invisible to the run; the model's checked primitives cover those for the modelled code)"]
-    exe = build_harness()
+    libs.build("san")
+    import concurrent.futures
+    with concurrent.futures.ThreadPoolExecutor(2) as pool:   # the two harnesses compile side by side
+        f_soup = pool.submit(build_soup_harness)
+        exe = build_harness()
+        exe_soup = f_soup.result()
     all_cases, meshes, stats = [], [], {}
     sect_wall = {}
     for section, budget in (SECTIONS_QUICK if ctx.tier == "quick" else SECTIONS_THOROUGH):
@@ -116,6 +168,15 @@ def run(ctx):
     kind_of = lambda c: c["tag"].split()[1] if len(c["tag"].split()) > 1 else "case"
     cov.update(cases.correspond(ctx, all_cases, "ingest model (engine ingest: ladder, Merge guard, status algebra, channel and LevelSet guards) vs the real library under ASan+UBSan",
                                 normalize=normalize, kind_of=kind_of))
+    # C09b: the import gate on arbitrary soups
+    t1 = time.time()
+    soup = soup_family(ctx, exe_soup)
+    sect_wall["soup"] = round(time.time() - t1, 1)
+    cov["evaluations"] += soup["evaluations"]
+    cov["distinct_nontrivial"] += soup["distinct_nontrivial"]
+    cov["model_vs_impl_compared"] += soup["model_vs_impl_compared"]
+    cov["kinds"].update(soup["kinds"])
+    cov["soup_family"] = soup
     # every exported NoError result through the verified mesh checker
     ans = core.driver_run(["mesh checkmerge " + body for _, body, _ in meshes])
     for (kind, body, genus), a in zip(meshes, ans):
@@ -136,7 +197,9 @@ def run(ctx):
                          "pinned counter-examples": "7 theorems pinned_* closed by decide"}
     cov["rule"] = ("ingest/merge: 7 valid bases (tetrahedron; cube with normals + merge vectors; 2-run Boolean with transforms and faceIDs; smoothed tetrahedron and cube with tangents; 3-run Compose with "
                    "properties; octahedron) in MeshGL and MeshGL64, mutated by 1-3 of 40 structure-aware classes (lengths +-1/+-k/0, index boundary values incl. 2^31, 2^32-1, 2^32+k, flips, "
-                   "degenerate / duplicate / dropped triangles, run-table shapes, NaN/inf/1e300 floats, random soups); prog: random terms of depth <= 4 over 14 leaf kinds (9 error codes, "
+                   "degenerate / duplicate / dropped triangles, run-table shapes, NaN/inf/1e300 floats, random soups); soup (C09b): 12 families of ladder-accepted soups on 4-44 vertices (closed pieces "
+                   "with opposed pairs, one / many triangles flipped, 3-6 triangles around an edge, all-ascending triangles, same- and opposite-orientation duplicates incl. several copies, two "
+                   "tetrahedra sharing a vertex / edge / face, coned Moebius strips, random even soups, closed pieces with two triangles dropped), each run through CreateHalfedges+IsManifold and the constructor; prog: random terms of depth <= 4 over 14 leaf kinds (9 error codes, "
                    "SetProperties(-5), NaN transform, valid, empty) and 30 ops; args: see exhaustive; text: OBJ text edits (insert/delete/byte/truncate/line/copy), random polygon sets with "
                    "empty / 1-2 point / non-finite contours, random point sets with collinear / coplanar / identical / non-finite points; distinct = distinct request lines")
     pick = {}
